@@ -50,7 +50,7 @@ def cases(tier, seed):
     return out
 
 
-def _compare(case, freq, vals, a, b, dfreq, what):
+def _compare(case, freq, vals, a, b, dfreq, what, mech=None):
     rf, rv, cnt, fa, fb, amb, amb_n = ref.fsc(a, b, dfreq)
     vals = np.asarray(vals, float)
     if len(vals) != len(rv):
@@ -74,7 +74,7 @@ def _compare(case, freq, vals, a, b, dfreq, what):
         err = abs(vals[i] - rv[i]) if np.isfinite(vals[i]) else np.inf
         case.maxobs("max_fsc_err", err if np.isfinite(err) else 9.9)
         case.check(err <= TOLERANCES["fsc_abs"], f"{what}: shell value differs from the normalised cross-spectrum",
-                   shell=i, got=float(vals[i]), want=float(rv[i]), dfreq=dfreq, shape=a.shape, count=int(cnt[i]))
+                   mech, shell=i, got=float(vals[i]), want=float(rv[i]), dfreq=dfreq, shape=a.shape, count=int(cnt[i]))
         if abs(rv[i]) < 0.999:
             nontriv += 1
     fin = vals[np.isfinite(vals)]
@@ -176,25 +176,32 @@ def _loader_case(case):
     n_set, seed, dfreq = p["n_set"], p["seed"], p["dfreq"]
 
     if p["kind"] == "group":
-        if p["mask"] in ("provider", "converter"):
-            mask = None if p["mask"] == "converter" else mask_arr
         grp = loader.groupby("grp")
         counts = grp.count()
         if min(counts.values()) < 2:
             return
         res = grp.fsc(mask, seed=seed, n_set=n_set, dfreq=dfreq or 0.05)
         halves = grp.average_split(n_set=n_set, seed=seed, squeeze=False,
-                                   output_shape=None if mask is None else mask.shape)
+                                   output_shape=shape if p["mask"] in ("array", "provider") else None)
         res2 = grp.fsc(mask, seed=seed, n_set=n_set, dfreq=dfreq or 0.05)
-        m = 1.0 if mask is None else mask
+        case.count("group_mask_" + p["mask"])
         for key, df in res.items():
+            # the mask that must have been applied: the array, the provider at the loader scale (1.0), or the
+            # converter applied to the mean of the first pair of half-maps (as the single loader does)
+            if p["mask"] == "none":
+                m = 1.0
+            elif p["mask"] in ("array", "provider"):
+                m = mask_arr
+            else:
+                m = np.asarray(mask.convert((halves[key][0][0] + halves[key][0][1]) / 2, 1.0))
             case.check(df.columns == ["freq"] + [f"FSC-{i}" for i in range(n_set)], "group fsc: wrong columns",
                        cols=df.columns)
             case.check(df.equals(res2[key]), "group fsc: same seed gives a different frame")
             for i in range(n_set):
                 h0, h1 = halves[key][i]
                 nd, nt = _compare(case, df["freq"].to_numpy(), df[f"FSC-{i}"].to_numpy(), h0 * m, h1 * m,
-                                  dfreq or 0.05, f"LoaderGroup.fsc[{key}]")
+                                  dfreq or 0.05, f"LoaderGroup.fsc[{key}]",
+                                  mech="group.fsc-mask-ignored" if p["mask"] in ("provider", "converter") else None)
         case.nontrivial(p["iseed"])
         return
 
